@@ -46,7 +46,7 @@ def retime(ops):
 def exhaustive(maxlen):
     """all histories up to maxlen over a small alphabet (2 PIDs, 2 sessions, all record kinds,
     both cleanups with cut-offs before everything / between any two ops / after everything)"""
-    base = [("L", 77), ("L", 88)]
+    base = [("L", 77), ("L", 88), ("L", 77, "second")]     # the last: another login under an already used PID
     for ses, pid in (("1", "77"), ("2", "88")):
         for typ in "ldo":
             base.append(("A", ses, typ, pid))
@@ -61,7 +61,7 @@ def exhaustive(maxlen):
             for pos, sym in enumerate(combo):
                 if sym < len(base):
                     b = base[sym]
-                    op = L(b[1], cred="u%d" % b[1]) if b[0] == "L" else A(0, b[1], b[2], b[3], RESULTS[(pos + sym) % 5], (pos + sym) % 3)
+                    op = (L(b[1], cred="u%d" % b[1]) if len(b) == 2 else L(b[1], cred="v%d" % b[1], tag="201")) if b[0] == "L" else A(0, b[1], b[2], b[3], RESULTS[(pos + sym) % 5], (pos + sym) % 3)
                     variants = [v + [op] for v in variants]
                 else:
                     kind = "S" if sym == len(base) else "R"
@@ -96,7 +96,10 @@ def random_history(r, reuse=False, faults=False, maxsess=6):
                 recs.append(("A", ses, "o", anypid()))          # stray late records
         streams.append(recs)
         if kind not in (5, 7):                                   # 5: cron-like, never a login
-            streams.append([("L", pid, "user%d" % s, 1 if kind != 9 else r.choice([0, 1]))])
+            ls = [("L", pid, "user%d" % s, 1 if kind != 9 else r.choice([0, 1]))]
+            if r.below(8) == 0:
+                ls.append(("L", pid, "again%d" % s, 1))          # a second login under the same PID, other identity
+            streams.append(ls)
         if reuse and kind < 3:
             # second use of the same PID, strictly after the first use
             ses2 = str(50 + s)
@@ -218,7 +221,7 @@ class TrackerFamily(Family):
         return "%s|%s" % (";".join(c["ops"]), rec.get("ispec"))
 
     def shrink_candidates(self, c):
-        if c.get("timed"):
+        if c.get("timed") or c.get("recorded"):
             return []
         ops = c["ops"]
         out = []
@@ -229,6 +232,8 @@ class TrackerFamily(Family):
     def stats(self, cases, recs):
         d = {"ops": {}, "errors": {}, "ambiguous_skipped": 0, "with_write_fault": 0, "lengths": {}}
         for c in cases:
+            if c.get("recorded"):
+                d["recorded_events_through_real_coalescer"] = d.get("recorded_events_through_real_coalescer", 0) + 1
             if c.get("timed"):
                 d["real_time_runs"] = d.get("real_time_runs", 0) + 1
             for op in c["ops"]:
@@ -255,6 +260,20 @@ class TrackerFamily(Family):
                                      faults=p in ("C01", "C04", "C14", "C09")))
         for n in ([50, 1100, 2300] if quick else [50, 300, 1100, 2300, 4200, 9000]):
             cs.append(long_hold(rng, n))
+        if p == "C14":
+            # every kernel event of the repository's recorded audit logs through the real auparse,
+            # Reassembler and aucoalesce, handed as the real Event to the real tracker (harness mode render)
+            import os
+            from . import core as _core
+            d = os.path.join(_core.REPO, "processors", "auditd", "testdata", "good")
+            rc, out = _core.sh([_core.HARNESS, "render", d], timeout=600)
+            k = 0
+            for ln in out.splitlines():
+                f = ln.split(" ")
+                if len(f) == 3 and f[0].startswith("r"):
+                    cs.append({"fail": "-", "ops": f[1].split(";"), "pre_obs": f[2], "recorded": True})
+                    k += 1
+            self.rule += "; plus %d kernel events of the repository's recorded audit logs through the real parser / reassembler / coalescer" % k
         if p == "C16" and not quick:
             # the real processor with its real one-minute ticker, in real time (run concurrently: about 2.5 min)
             for gap, noise in ((30, 0), (45, 20), (135, 0), (140, 40), (150, 55)):
